@@ -66,4 +66,9 @@ TEXT = {
   "level_text": "Exploration: idempotence (upper, lower, trim, capitalize), reverse involution and length preservation, sort = ordered permutation that leaves its input alone, length = for-iterations = what first/last/slice see, join/split round trip, list merge = concatenation, map merge = later wins with every key once, and slice index rules, on strings (ASCII, multi-byte, special-casing letters, named type), untyped and typed lists, arrays and maps; slice(start[,length]) enumerated exhaustively for all arguments in [-(n+2), n+2], n <= 6, on six sequence types; default on a table of 30 empty and 25 non-empty values of every numeric width; abs/round/number_format on random decimals against math/big.",
   "level_note": "Results observed through json_encode (trusted as a faithful encoder). Sorting order of numbers: numeric or by printed form are both accepted (the statement does not fix the relation; an existing test pins string order for mixed lists). Exact decimal ties accept either neighbour. Multi-character split separators are a listed known finding (F28) and are not generated.",
  },
+ "C20": {
+  "technique": "stateful property-based testing (rapid) over lookup histories with cache floods + exhaustive family table; oracle = direct reflection on the Go value, printed through the same observer, and constancy of every answer along the history",
+  "level_text": "Exploration: histories of attribute lookups over 2-4 reflect.StructOf types whose shared field names sit at different indices (embedded structs, promoted/shadowed/unexported fields), a hand-written family with value/pointer receiver methods and embedded promotion, and untyped/typed/nested maps, interleaved with floods of up to 1500 (thorough 3000) fresh (type, name) pairs that push the process-wide 1000-entry cache through eviction; each answer is compared with reflection and with the answer given earlier in the same history. The 8 fixed values x 18 names x value/pointer x two forms are enumerated three times around two floods of 1200.",
+  "level_note": "The cache is process-wide, so histories of different cases also act on each other (intended). Expected values are printed by the engine's own {{ v }}. x['name'] is claimed for maps only.",
+ },
 }
